@@ -3,4 +3,8 @@
 //! interpreter + oracle as the proptest / enumeration binary.
 pub mod c06;
 pub mod c10;
+pub mod c12;
+pub mod c13;
+pub mod c14;
+pub mod probe;
 pub mod rb;
